@@ -346,6 +346,13 @@ def gen_command(rng, cfg, verb):
 def gen_session(rng, cfg):
     """a command sequence: half the steps follow the productive MAIL-RCPT-DATA path so that deep
     states are reached, the other half are arbitrary verbs"""
+    if rng.random() < 0.03:
+        # one transaction with far more recipients than fit any fixed buffer (and a second MAIL halfway now and then)
+        k = rng.choice([60, 150, 300])
+        cmds = [gen_command(rng, cfg, "mail")] + [gen_command(rng, cfg, "rcpt") for _ in range(k)]
+        if rng.random() < 0.3:
+            cmds.insert(rng.randrange(1, len(cmds)), gen_command(rng, cfg, rng.choice(["mail", "rset", "helo"])))
+        return cmds + [gen_command(rng, cfg, "data"), gen_command(rng, cfg, "quit")]
     n = rng.choice([3, 5, 8, 10, 12, 12, 16, 20])
     verbs = [v for v, _ in VERB_WEIGHTS]
     wts = [w for _, w in VERB_WEIGHTS]
